@@ -4,8 +4,8 @@
 set -u
 seed="$1"; pkg="$2"; rx="$3"
 export GOPROXY=off GOSUMDB=off GOTOOLCHAIN=local
-wt=/tmp/wt/verify-$$
-git -C /repo worktree add -q "$wt" HEAD || exit 2
+wt=/tmp/wt/verify-$$; base="${4:-HEAD}"
+git -C /repo worktree add -q "$wt" "$base" || exit 2
 cd "$wt" || exit 2
 cp "$seed"/demo/*.go "$pkg"/
 res_without=$(go test -mod=mod -vet=off -count=1 -run "$rx" ./"$pkg"/ 2>&1 | tail -3)
